@@ -134,6 +134,43 @@ def judge(i, r, rec):
     return bool(failed or pending)
 
 
+def judge_many_roots(i, r, stage, rec):
+    """Exact recount for the constructed projects: every step is blocked by exactly one root."""
+    report = r.result.end_report
+    if not report or r.result.draining:
+        return
+    summary = report["pending_summary"]
+    avail = set()
+    if stage["build"].get("resources"):
+        avail = {x.partition(":")[0] for x in stage["build"]["resources"].split(",")}
+    by_input, by_res = {}, {}
+    for name, sd in stage["spec"]["steps"].items():
+        if sd["inp"]:
+            by_input.setdefault(sd["inp"][0], []).append(name)
+        for res in sd["resources"]:
+            if res not in avail:
+                by_res.setdefault(res, []).append(name)
+    where = f"stage {i}: {stage['edit']}"
+    for key, roots, hidden, hidden_blocked in (
+            ("inputs", by_input, "ninputs_hidden", "ninputs_hidden_blocked"),
+            ("resources", by_res, "nresources_hidden", "nresources_hidden_blocked")):
+        shown = summary[key]
+        if len(shown) + summary[hidden] != len(roots):
+            raise Violation(
+                f"{PROPERTY}/summary-loses-root-causes/{key}",
+                f"{where}: {len(roots)} distinct blocking {key}, the summary shows {len(shown)} "
+                f"and counts {summary[hidden]} more")
+        nsteps = sum(len(v) for v in roots.values())
+        accounted = sum(row["nblocked"] for row in shown) + summary[hidden_blocked]
+        if accounted != nsteps:
+            raise Violation(
+                f"{PROPERTY}/summary-loses-blocked-steps/{key}",
+                f"{where}: {nsteps} steps are blocked by {key}, the rows account for "
+                f"{sum(row['nblocked'] for row in shown)} and the remainder for "
+                f"{summary[hidden_blocked]}")
+    rec.event("many-roots:recounted")
+
+
 async def check_case(case, rec, ctx):
     d = None
     state = {"nontrivial": False}
@@ -142,6 +179,8 @@ async def check_case(case, rec, ctx):
         check_serve_health(PROPERTY, r, i)
         if judge(i, r, rec):
             state["nontrivial"] = True
+        if case["stages"][i]["edit"][:1] == ["many-roots"]:
+            judge_many_roots(i, r, case["stages"][i], rec)
 
     try:
         try:
@@ -199,6 +238,34 @@ def _target_cases_with_pending(draw):
     return case
 
 
+@st.composite
+def _many_roots_cases(draw):
+    """More root causes of one kind than the summary displays (it ranks a pool of 20): n steps,
+    each blocked by an input that nothing provides or by a resource that is not defined, some of
+    them sharing a root."""
+    n = draw(st.integers(18, 32))
+    kind = draw(st.sampled_from(["inputs", "inputs", "resources", "mixed"]))
+    steps = {}
+    items = []
+    nroots = draw(st.integers(max(2, n - 6), n))
+    for k in range(n):
+        root = k % nroots
+        by_input = kind == "inputs" or (kind == "mixed" and k % 2 == 0)
+        steps[f"m{k}"] = {
+            "script": f"m{k}.py", "args": [], "workdir": ".",
+            "inp": [f"miss/in{root}.txt"] if by_input else [],
+            "out": [f"out/m{k}.out"], "vol": [], "env": [], "need": "default",
+            "resources": {} if by_input else {f"res{root}": 1}, "amend_inp": [],
+            "amend_out": [], "read_first": False, "fail": None, "partial": False, "variant": 0}
+        items.append(["step", f"m{k}"])
+    spec = {"sources": {"src/s0.txt": "s0\n"}, "steps": steps, "env": {},
+            "plans": {"plan.py": {"workdir": ".", "items": items}}, "static_style": {}}
+    build = {"njob": draw(st.integers(1, 3)), "keep_going": draw(st.booleans()),
+             "do_clean": True, "resources": draw(st.sampled_from([None, "gpu:1"])),
+             "choices": []}
+    return {"stages": [{"edit": ["many-roots", kind, n, nroots], "spec": spec, "build": build}]}
+
+
 def subchecks(tier):
     big = tier == "thorough"
     return [
@@ -208,6 +275,8 @@ def subchecks(tier):
                  examples=80_000 if big else 1_500),
         SubCheck("targets_pending", check_case, strategy=_target_cases_with_pending,
                  examples=40_000 if big else 1_000),
+        SubCheck("many_roots", check_case, strategy=_many_roots_cases,
+                 examples=10_000 if big else 300),
     ]
 
 
